@@ -1,6 +1,6 @@
 ------------------------------ MODULE CoPdoGen ------------------------------
 EXTENDS CoPdo, Json, SequencesExt
-CONSTANTS Letters, ProbeLetters, Walk, WalkLen, TC0, RC0, Sync0, V0, ObjOrder, CfgName, PoolN
+CONSTANTS Letters, ProbeLetters, Probe2Letters, Walk, WalkLen, TC0, RC0, Sync0, V0, ObjOrder, CfgName, PoolN
 VARIABLES p, hist, prev, gh
 vars == <<p, hist, prev, gh>>
 StepRec(ev, x) == [e |-> ev, x |-> x]
@@ -116,6 +116,8 @@ RunLetters(pp, ls, acc) ==
   ELSE LET a == Apply(pp, Head(ls)) IN RunLetters(a.p, Tail(ls), Append(acc, StepRec(a.ev, a.x)))
 Probe == RunLetters(p, ProbeLetters, <<>>)
 Cfg == [n |-> NodeId, name |-> CfgName, tc |-> TC0, rc |-> RC0, sync |-> Sync0, v |-> [i \in 1..Len(ObjOrder) |-> V0[ObjOrder[i]]]]
-EmitEdge == hist = <<>> \/ PrintT(<<"EDGE", ToJson([c |-> Cfg, s |-> prev, e |-> hist[Len(hist)], d |-> View, p |-> Probe])>>)
+\* optional second characterisation sequence (e.g. re-enter OPERATIONAL at once and look at the timer pool)
+EmitEdge == hist = <<>> \/ (/\ PrintT(<<"EDGE", ToJson([c |-> Cfg, s |-> prev, e |-> hist[Len(hist)], d |-> View, p |-> Probe])>>)
+                            /\ (Probe2Letters = <<>> \/ PrintT(<<"EDGE", ToJson([c |-> Cfg, s |-> prev, h |-> <<hist[Len(hist)]>>, d |-> View, p |-> RunLetters(p, Probe2Letters, <<>>)])>>)))
 EmitWalk == Len(hist) < WalkLen \/ (PrintT(<<"WALK", ToJson([c |-> Cfg, h |-> hist, p |-> Probe])>>) /\ FALSE)
 =============================================================================
